@@ -12,7 +12,11 @@ RULE = 'metamorphic: names, order, lengths unchanged and lines shifted by the in
 def bounded(tier, seed, fallback_for):
     from pyvc import driver
     return [driver.run_harness(ID, "h_pipeline.py", [ID, tier, str(seed)], "program-texts:" + ID,
-                               BOUND, RULE)]
+                               BOUND, RULE),
+            driver.run_harness(ID, "h_fs.py", [ID, tier, str(seed)], "cached-scans:" + ID,
+                               "7 languages x 20 layout-only insertions (blank, spaces, tab, comment line; top, second line, middle, end; 1 or 3 lines); "
+                               "thorough: + 40 random insertions per language; real scan command twice on a temporary tree",
+                               "names, order, lengths unchanged and lines shifted by the insertions above, in the report of the second (cache-reusing) scan")]
 
 MANIFEST = {
     "category": "exploration",
